@@ -173,6 +173,19 @@ static void check_split(const std::string &s)
                      show(rt).c_str());
         VF_OK("trim == input without leading/trailing {space,\\n,\\r,\\t}");
     }
+    // bytes that are white space under no definition (neither the code's {space,\n,\r,\t} nor isspace()) at both edges:
+    // nothing may be removed. \v and \f, on which the two definitions differ, are not driven (seeded C19-r6s1, DESIGN 8).
+    static const unsigned char EDGE[] = {0x01, 0x08, 0x0e, 0x1b, 0x1f, 0x21, 0x7f, 0x80, 0xff};
+    vf::cls("trim:non-space-edges");
+    for (unsigned char e : EDGE)
+    {
+        std::string x = std::string(1, (char)e) + s + std::string(1, (char)e);
+        vf::Exact ex(x.data(), x.size(), 0, false);
+        std::string t = igris::trim(igris::buffer((const void *)ex.p, x.size()));
+        if (t != x)
+            vf::fail("trim:removed-non-space", "input=\"%s\" got=\"%s\": the edge byte 0x%02x is not white space", show(x).c_str(), show(t).c_str(), e);
+    }
+    VF_OK("trim keeps control and high bytes that are not white space at the edges");
 }
 
 // ---------------------------------------------------------------- split_cmdargs
@@ -504,7 +517,7 @@ extern "C" void vf_setup()
     for (const char *c :
          {"split(buf,char) == maximal runs of non-delimiters", "split(buf,delims) == maximal runs of non-delimiters",
           "split(join(tokens)) == tokens", "join(range) inverse of split, prefix/postfix wrapped around",
-          "trim == input without leading/trailing {space,\\n,\\r,\\t}", "split_cmdargs == quote-aware space tokeniser (DESIGN 3a)",
+          "trim == input without leading/trailing {space,\\n,\\r,\\t}", "trim keeps control and high bytes that are not white space at the edges", "split_cmdargs == quote-aware space tokeniser (DESIGN 3a)",
           "igris_memmem == first occurrence or none", "igris_memmem: match ending at the last byte",
           "replace == left-to-right non-overlapping substitution", "replace_substrings == reference + terminator when it fits",
           "replace_substrings truncated == first maxsize-1 bytes of the full result + terminator",
